@@ -1,7 +1,8 @@
 (** Extraction of the model checker (C16) and the variable relabelling (C10). *)
-From PM Require Import Impl.Anchor Impl.Errors Impl.Interpret.
+From PM Require Import Impl.Anchor Impl.Errors Impl.Interpret Impl.ResetVars.
 Require Extraction.
 Require Import ExtrOcamlBasic.
 Extraction Language OCaml.
 Extraction "../ocaml/errvars/model.ml"
-  types_anchor errors_opt check_graph cli_exit_code cli_exit_code_stdin interpret.
+  types_anchor errors_opt check_graph cli_exit_code cli_exit_code_stdin interpret
+  parse_fmt render reset_variables_ov prefix_ov latin1_is_alpha latin1_lower latin1_applies.
